@@ -25,6 +25,8 @@ MANIFEST = {
 def check(seed, tier):
     rep = Report("C16", seed, tier)
     core.build_harness()
+    # mode M: the specification modules against hand-derived expectations on hand-written projects
+    core.mc(rep, "mc/MC_Walk.tla", "MC_Walk.cfg", workers=1)
     meta = core.gen("C16", seed, tier, shards=8)
     core.validate_traces(rep, TRACE_SPEC, meta["files"], parallel=int(os.environ.get("VERIF_PAR", 4 if tier == "quick" else 8)), timeout=3600)
 
@@ -41,7 +43,7 @@ def check(seed, tier):
         "rule": "a case is one random program run through the four real checkers (4 events: checker, project, configuration, warnings); "
                 "non-trivial = the program has at least two direct calls and at least one of the four checkers reports a warning; "
                 "distinct = distinct case hashes",
-        "samples": [str(s)[:1500] for s in meta["samples"][:2]], "exhaustive": False, "trusted_base": TRUSTED,
+        "samples": [str(s)[:1500] for s in meta["samples"][:2]], "exhaustive": False, "mc_runs": rep.cov.get("mc_runs"), "trusted_base": TRUSTED,
     }, ["programs: 1-3 functions, 1-5 blocks each, extern tables = random subsets of a 20-name vocabulary containing every configured name",
         "configurations: random symbol lists incl. duplicates, names absent from the binary and empty lists; CWE332 pairs without duplicate pairs",
         "extern symbol names are pairwise different (find_symbol's first-match rule is not exercised)"])
